@@ -30,12 +30,12 @@ from transval import hx, unhx
 
 SPEC = {
     "prop": "C08",
-    "lean_targets": ["InfernoVerif.Props.C08", "InfernoVerif.Props.C09Glue", "InfernoVerif.Model.STDPF", "InfernoVerif.Gen.Dispatch"],
-    "prop_files": ["InfernoVerif/Props/C08.lean", "InfernoVerif/Props/C09Glue.lean"],
+    "lean_targets": ["InfernoVerif.Props.C08", "InfernoVerif.Props.C09Glue", "InfernoVerif.Props.C08GlueProg", "InfernoVerif.Model.STDPF", "InfernoVerif.Gen.Dispatch"],
+    "prop_files": ["InfernoVerif/Props/C08.lean", "InfernoVerif/Props/C09Glue.lean", "InfernoVerif/Props/C08GlueProg.lean"],
     "lemma_files": ["InfernoVerif/Lemmas/Recurrence.lean", "InfernoVerif/Lemmas/STDP.lean"],
     "model_files": ["InfernoVerif/Model/STDP.lean", "InfernoVerif/Model/STDPF.lean",
                     "InfernoVerif/Gen/TraceR.lean", "InfernoVerif/Gen/TraceF.lean"],
-    "translate": ["Trace", "Routes"],
+    "translate": ["Trace", "Routes", "STDPProg"],
     "driver_targets": ["InfernoVerif.Model.STDPF", "InfernoVerif.Gen.Dispatch"],
     "assumptions": [
         "theorems are over exact reals; the driver executes the same definitions over IEEE doubles and is compared with torch float64 "
